@@ -531,8 +531,8 @@ def _bulk_insert(ctx, fn, call, args, base):
         for an, x in appends:
             if an in cf.infeasible:
                 continue
-            t = cf.expr(x.args[0])
-            if not isinstance(t, ast.Tuple):
+            t = cf.as_tuple(cf.expr(x.args[0]))
+            if t is None:
                 raise Undecided('%s: cannot find the record tuple appended to %s under %s' % (fn.qn, args.id, assume))
             recs.append((x, t))
         if not recs:
